@@ -35,6 +35,13 @@ impl ProcessorRegistry {
         reason = "processor_id is guaranteed to be in bounds by SystemHardware"
     )]
     pub(crate) fn get_or_init(&self, processor_id: ProcessorId) -> &ProcessorState {
+        #[cfg(folo_verif)]
+        return self.states[processor_id as usize].get_or_init(|| {
+            crate::verif::event("state_created", u64::from(processor_id), 0);
+            ProcessorState::new()
+        });
+
+        #[cfg(not(folo_verif))]
         self.states[processor_id as usize].get_or_init(ProcessorState::new)
     }
 
@@ -50,6 +57,9 @@ impl ProcessorRegistry {
     #[cfg_attr(test, mutants::skip)] // Removing this causes timeouts (workers never stop)
     pub(crate) fn signal_shutdown_all(&self) {
         for state in &self.states {
+            #[cfg(folo_verif)]
+            crate::verif::point("d.get", 0);
+
             if let Some(s) = state.get() {
                 s.signal_shutdown();
             }
